@@ -30,7 +30,7 @@ PROPS = {
     "C02": dict(
         domains=[("codec", "build", 12000, 150000)],
         relevant=["C02:"],
-        theorems=['DV.Props.C02.C02_pad4', 'DV.Props.C02.C02_pad4_spec', 'DV.Props.C02.C02_uint24to32', 'DV.Props.C02.C02_uint32to24', 'DV.Props.C02.C02_uint24_roundtrip', 'DV.Props.C02.C02_be3_rd', 'DV.Props.C02.C02_time_enc', 'DV.Props.C02.C02_time_roundtrip', 'DV.Props.C02.C02_time_model', 'DV.Props.C02.C02_ref_enc_avps', 'DV.Props.C02.C02_ref_enc_msg', 'DV.Props.C02.C02_len_mod4', 'DV.Props.C02.C02_length', 'DV.Props.C02.C02_new_message', 'DV.Props.C02.C02_layout', 'DV.Props.C02.C02_gen', 'DV.Props.C02.C02_header_roundtrip'],
+        theorems=['DV.Props.C02.C02_pad4', 'DV.Props.C02.C02_pad4_spec', 'DV.Props.C02.C02_uint24to32', 'DV.Props.C02.C02_uint32to24', 'DV.Props.C02.C02_uint24_roundtrip', 'DV.Props.C02.C02_be3_rd', 'DV.Props.C02.C02_time_enc', 'DV.Props.C02.C02_time_roundtrip', 'DV.Props.C02.C02_time_model', 'DV.Props.C02.C02_ref_enc_avps', 'DV.Props.C02.C02_ref_enc_msg', 'DV.Props.C02.C02_ref_dec', 'DV.Props.C02.C02_len_mod4', 'DV.Props.C02.C02_length', 'DV.Props.C02.C02_new_message', 'DV.Props.C02.C02_layout', 'DV.Props.C02.C02_gen', 'DV.Props.C02.C02_header_roundtrip'],
         gen_obligations=['Gen.pad4', 'Gen.uint24to32', 'Gen.uint32to24', 'Gen.timeEnc', 'Gen.timeDecLow', 'Gen.timeDecHigh', 'Gen.hdrLayoutEnc', 'Gen.hdrLayoutDec', 'Gen.avpLayoutEnc', 'Gen.avpLayoutDec', 'Gen.rfc868offset', 'Gen.rfc2030offset'],
         trusted=CODEC_TRUST,
     ),
